@@ -41,6 +41,10 @@ pub enum OutDest {
     FileIsDir,
     /// -o /dev/full (real ENOSPC on write)
     FileDevFull,
+    /// -o names the script file itself (file mode; elsewhere as `File`)
+    FileIsScript,
+    /// -o names the file stdin is redirected from (stdin a regular file; elsewhere as `File`)
+    FileIsStdin,
 }
 
 #[derive(Clone, Debug, PartialEq, Serialize, Deserialize)]
@@ -417,6 +421,10 @@ pub fn gen_scenario(rng: &mut Rng) -> Scenario {
     let out = match rng.below(8) {
         0 | 1 => OutDest::File,
         2 => OutDest::FileStale("{\"stale\":true}".into()),
+        // the destination is one of the run's own sources: everything must have been read
+        // before the object is written over it
+        3 if mode == Mode::File && rng.chance(1, 2) => OutDest::FileIsScript,
+        3 if matches!(stdin, StdinKind::File(_)) => OutDest::FileIsStdin,
         _ => OutDest::Stdout,
     };
     let mut plan = Plan::canonical();
@@ -489,6 +497,18 @@ pub fn invocation(sc: &Scenario) -> Invocation {
             argv.push(out_name.clone());
             files.push((out_name.clone(), content.clone().into_bytes()));
             out_path = Some(out_name.clone());
+        }
+        OutDest::FileIsScript => {
+            let name = if sc.mode == Mode::File { prog_name.clone() } else { out_name.clone() };
+            argv.push("-o".into());
+            argv.push(name.clone());
+            out_path = Some(name);
+        }
+        OutDest::FileIsStdin => {
+            let name = if matches!(sc.stdin, StdinKind::File(_)) && sc.mode != Mode::EvalStdin { ".stdin".to_string() } else { out_name.clone() };
+            argv.push("-o".into());
+            argv.push(name.clone());
+            out_path = Some(name);
         }
         OutDest::FileMissingDir => {
             argv.push("-o".into());
@@ -634,6 +654,11 @@ pub fn judge(sc: &Scenario, rr: &RunResult) -> Judged {
     let uses_file = !matches!(sc.out, OutDest::Stdout);
     let stale = match &sc.out {
         OutDest::FileStale(s) => Some(s.clone().into_bytes()),
+        OutDest::FileIsScript if sc.mode == Mode::File => Some(styled_source(sc).into_bytes()),
+        OutDest::FileIsStdin if sc.mode != Mode::EvalStdin => match &sc.stdin {
+            StdinKind::File(b) => Some(b.clone()),
+            _ => None,
+        },
         _ => None,
     };
     let exit0 = rr.exit == Some(0);
@@ -675,7 +700,7 @@ pub fn judge(sc: &Scenario, rr: &RunResult) -> Judged {
         if !stdout_objs.is_empty() {
             return Err(("object-on-failure".into(), format!("an outputs object was emitted although the run failed: {}", stdout_objs[0])));
         }
-        if uses_file && matches!(sc.out, OutDest::File | OutDest::FileStale(_)) {
+        if uses_file && matches!(sc.out, OutDest::File | OutDest::FileStale(_) | OutDest::FileIsScript | OutDest::FileIsStdin) {
             match (&rr.out_file, &stale) {
                 (None, _) => {}
                 (Some(b), Some(s)) if b == s => {}
@@ -873,7 +898,7 @@ pub fn enumerate_plans(sc: &Scenario, base: &RunResult, rng: &mut Rng) -> Vec<(S
             out.push((format!("hard:write-errno{}:1", errno), with_rules(sc, vec![Rule::WErr { cls: "1".into(), call, errno, times: 1 }])));
         }
     }
-    if opened_out || matches!(sc.out, OutDest::File | OutDest::FileStale(_)) {
+    if opened_out || matches!(sc.out, OutDest::File | OutDest::FileStale(_) | OutDest::FileIsScript | OutDest::FileIsStdin) {
         for errno in [EACCES, ENOENT, EISDIR, EMFILE, ENOSPC] {
             out.push((format!("hard:open-errno{}:out", errno), with_rules(sc, vec![Rule::OpenErr { cls: "out".into(), errno }])));
         }
